@@ -55,6 +55,37 @@ def rsa_artifact(rng, kind, pool=None):
     p, q = keypair_generator.Generator(
         bytes([rng.below(256)] + [0] * 31)).generate_key(2048)
     n = p * q
+  elif kind == 'keypair-collision':
+    # shares its 64 most significant bits with a key the shipped table covers
+    from paranoid_crypto.lib import keypair_generator
+    p0, q0 = keypair_generator.Generator(
+        bytes([rng.below(256)] + [0] * 31)).generate_key(2048)
+    n0 = p0 * q0
+    cut = rng.choice([8, 64, 1000, 1900])
+    n = (n0 >> cut << cut) | rng.bits(cut) | 1
+    p = q = None
+  elif kind in ('pollard-below-gate', 'pollard-weak-small'):
+    # n - 1 divisible by a 2^20-smooth S: about 2^50 (below the 2^60 gate of
+    # the Pollard check) or about 2^70 with p - 1 fully smooth (weak)
+    target = 50 if kind == 'pollard-below-gate' else 70
+    while True:
+      S = 2
+      while S.bit_length() < target:
+        S *= rng.choice(rsagen.small_primes()[5:3000])
+      if S.bit_length() <= target + 4:
+        break
+    def cong1(bits):
+      while True:
+        c = (rng.bits(bits - S.bit_length()) | (1 << (bits - S.bit_length()
+                                                      - 1))) * S + 1
+        if c.bit_length() == bits and rsagen.is_prime(c):
+          return int(c)
+    if kind == 'pollard-below-gate':
+      p, q = cong1(512), cong1(512)
+    else:
+      p = rsagen.prime_from(rng, S, 512, True)
+      q = cong1(512)
+    n = p * q
   elif kind == 'roca':
     M = 1
     for pr in (3, 5, 7, 11, 13, 17, 19, 23, 29, 31, 37, 41, 43, 47, 53, 59, 61,
